@@ -688,6 +688,17 @@ Proof.
   vm_compute. reflexivity.
 Qed.
 
+(* a set built by the library itself from a list, and a sequence of operations with its specified outcome *)
+Example C18_nonvacuous_set :
+  exists t, Set_fromList (fun _ _ _ => false) Z.sub 20 (of_list [5; 1; 4; 2; 3; 1]) = Ok t /\ savl t /\ sbst Z.sub t
+    /\ elements t = [1; 2; 3; 4; 5]
+    /\ SetSeq.srun Z.sub (fun _ _ _ => false) 40 t [SetSeq.SRemove 3; SetSeq.SUnion [7; 0]; SetSeq.SInter [0; 1; 2; 9]; SetSeq.SDiff [1]]
+       = Ok (Set_Node 2 2 (Set_Leaf 0) Set_Empty).
+Proof.
+  eexists. split; [vm_compute; reflexivity|]. split; [cbn; lia|]. split; [cbn; repeat constructor; cbn; unfold lt; lia|].
+  split; vm_compute; reflexivity.
+Qed.
+
 Print Assumptions C18_map_balanced.
 Print Assumptions C18_map_get.
 Print Assumptions C18_map_containsKey.
